@@ -494,3 +494,70 @@ Proof.
   apply (swaps_refine_exchanges L Hwf Hv _ (length l) v l offs R eq_refl).
   apply Forall_app. split; [|apply Forall_app; split]; apply rev_pairs_nat_valid; lia.
 Qed.
+
+(* std::swap_ranges(begin + a, begin + b, begin + c) within one vector, the ranges not overlapping *)
+Definition range_pairs_nat (a b c : nat) : list (nat * nat) :=
+  map (fun t => (a + t, c + t)%nat) (seq 0 (b - a)).
+
+Lemma range_pairs_nat_Z a b c : (a <= b)%nat ->
+  map (fun ij => (Z.of_nat (fst ij), Z.of_nat (snd ij))) (range_pairs_nat a b c) =
+  range_pairs (Z.of_nat a) (Z.of_nat b) (Z.of_nat c).
+Proof.
+  intros Hab. unfold range_pairs_nat, range_pairs. rewrite map_map.
+  replace (Z.to_nat (Z.of_nat b - Z.of_nat a)) with (b - a)%nat by lia.
+  apply map_ext_in. intros t Ht. cbn [fst snd]. f_equal; lia.
+Qed.
+
+Lemma fold_range_nth (l : list tuple) a c n : (c + n <= length l)%nat -> (a + n <= length l)%nat ->
+  (a + n <= c \/ c + n <= a)%nat ->
+  forall m, (m <= n)%nat -> forall k,
+  nth k (fold_left lswap (map (fun t => (a + t, c + t)%nat) (seq 0 m)) l) [] =
+  if ((a <=? k) && (k <? a + m))%nat then nth (k - a + c) l []
+  else if ((c <=? k) && (k <? c + m))%nat then nth (k - c + a) l [] else nth k l [].
+Proof.
+  intros Hc Ha Hd. induction m as [|m IH]; intros Hm k.
+  - cbn [seq map fold_left].
+    destruct (Nat.leb_spec a k); destruct (Nat.ltb_spec k (a + 0)); destruct (Nat.leb_spec c k); destruct (Nat.ltb_spec k (c + 0));
+      cbn [andb]; try reflexivity; exfalso; lia.
+  - rewrite seq_S, map_app, fold_left_app. cbn [map fold_left Nat.add].
+    set (l1 := fold_left lswap (map (fun t => (a + t, c + t)%nat) (seq 0 m)) l) in *.
+    assert (Hl1 : length l1 = length l) by apply fold_lswap_length.
+    rewrite nth_lswap by (rewrite Hl1; lia).
+    rewrite !IH by lia.
+    destruct (Nat.eqb_spec k (a + m)) as [->|Hk1].
+    + (* position a + m receives what position c + m held *)
+      destruct (Nat.leb_spec a (c + m)); destruct (Nat.ltb_spec (c + m) (a + m)); destruct (Nat.leb_spec c (c + m)); destruct (Nat.ltb_spec (c + m) (c + m));
+        cbn [andb]; try (exfalso; lia);
+      destruct (Nat.leb_spec a (a + m)); destruct (Nat.ltb_spec (a + m) (a + S m)); cbn [andb]; try (exfalso; lia); f_equal; lia.
+    + destruct (Nat.eqb_spec k (c + m)) as [->|Hk2].
+      * destruct (Nat.leb_spec a (a + m)); destruct (Nat.ltb_spec (a + m) (a + m)); destruct (Nat.leb_spec c (a + m)); destruct (Nat.ltb_spec (a + m) (c + m));
+          cbn [andb]; try (exfalso; lia);
+        destruct (Nat.leb_spec a (c + m)); destruct (Nat.ltb_spec (c + m) (a + S m)); destruct (Nat.leb_spec c (c + m)); destruct (Nat.ltb_spec (c + m) (c + S m));
+          cbn [andb]; try (exfalso; lia); f_equal; lia.
+      * destruct (Nat.leb_spec a k); destruct (Nat.ltb_spec k (a + S m)); destruct (Nat.ltb_spec k (a + m));
+          destruct (Nat.leb_spec c k); destruct (Nat.ltb_spec k (c + S m)); destruct (Nat.ltb_spec k (c + m));
+          cbn [andb]; try reflexivity; exfalso; lia.
+Qed.
+
+Theorem swap_ranges_elementwise (l : list tuple) a b c : (a <= b)%nat -> (b <= length l)%nat ->
+  (c + (b - a) <= length l)%nat -> (b <= c \/ c + (b - a) <= a)%nat -> forall k,
+  nth k (fold_left lswap (range_pairs_nat a b c) l) [] =
+  if ((a <=? k) && (k <? b))%nat then nth (k - a + c) l []
+  else if ((c <=? k) && (k <? c + (b - a)))%nat then nth (k - c + a) l [] else nth k l [].
+Proof.
+  intros Hab Hbl Hcl Hd k. unfold range_pairs_nat.
+  rewrite (fold_range_nth l a c (b - a) ltac:(lia) ltac:(lia) ltac:(lia) (b - a) (le_n _) k).
+  replace (a + (b - a))%nat with b by lia. reflexivity.
+Qed.
+
+Theorem swap_ranges_refines L : wf_plist L = true -> has_varying L = false ->
+  forall v l offs a b c, RepO L v l offs -> (a <= b)%nat -> (b <= length l)%nat ->
+  (c + (b - a) <= length l)%nat -> (b <= c \/ c + (b - a) <= a)%nat ->
+  RepO L (fst (swaps L true v v (range_pairs (Z.of_nat a) (Z.of_nat b) (Z.of_nat c))))
+       (fold_left lswap (range_pairs_nat a b c) l) offs.
+Proof.
+  intros Hwf Hv v l offs a b c R Hab Hbl Hcl Hd. rewrite <- (range_pairs_nat_Z a b c Hab).
+  apply (swaps_refine_exchanges L Hwf Hv _ (length l) v l offs R eq_refl).
+  unfold range_pairs_nat. apply Forall_forall. intros ij Hin. apply in_map_iff in Hin.
+  destruct Hin as (t & <- & Ht). apply in_seq in Ht. cbn [fst snd]. lia.
+Qed.
